@@ -3,6 +3,7 @@ concrete bytes on a real connection, under the watchdog, and log the events Robu
 from __future__ import annotations
 
 import hashlib
+import os
 import random
 
 from lib import c17_watch as watch
@@ -14,9 +15,10 @@ PROBE_STEPS = 200000
 PROBE_WALL = 20.0
 
 
-def ev(e, ch="", cls="", length=0, disc="none", outcome="", steps=0, conn=False, open_=False, ok=False):
+def ev(e, ch="", cls="", length=0, disc="none", outcome="", steps=0, conn=False, open_=False, ok=False, txn=False):
     # every record carries every field (Json -> TLA+ records must be uniform)
-    return {"e": e, "ch": ch, "cls": cls, "len": length, "disc": disc, "outcome": outcome, "steps": steps, "conn": conn, "open": open_, "ok": ok}
+    return {"e": e, "ch": ch, "cls": cls, "len": length, "disc": disc, "outcome": outcome, "steps": steps, "conn": conn, "open": open_, "ok": ok,
+            "txn": txn}
 
 
 def seq_seed(seed, channel, seq, round_=0):
@@ -24,19 +26,24 @@ def seq_seed(seed, channel, seq, round_=0):
     return int(h[:12], 16)
 
 
-def run_sequence(channel, seq, seed, units=None, rig_factory=None, keep_units=True):
-    """-> dict(channel, seq, seed, trace=[events], units=[[(target, hex)]], why, first_exc)
+def run_sequence(channel, seq, seed, units=None, rig_factory=None, keep_units=True, variants=None):
+    """-> dict(channel, seq, seed, trace=[events], units=[[(target, hex)]], labels, stage, why, first_exc)
     units: concrete bytes to use instead of generating them (replay).
+    variants: per position the index of the instance of an enumerated class (None: drawn).
+    labels: per position the name of the instance used ("" for drawn classes); stage: the part of the probe that failed.
     Harness failures (rig cannot be built, corpus missing ...) raise."""
     from lib import c17_rigs as rigs
 
     rng = random.Random(seed)
+    fired0 = watch.fired
     loop = watch.new_loop()
     cen = watch.census()
     factory = rig_factory or rigs.RIGS[channel]
     r = factory(rng)
     trace = []
+    stage = ""
     used = []
+    labels = []
     why = ""
     first_exc = None
     try:
@@ -48,11 +55,15 @@ def run_sequence(channel, seq, seed, units=None, rig_factory=None, keep_units=Tr
                 unit = [(t, bytes.fromhex(h)) for t, h in units[i]]
                 if cls in ("chan_disc", "rfc_disc"):
                     r.closed_by_harness = True
+                labels.append("")
             else:
-                unit = r.gen(cls)
+                unit = r.gen(cls, variants[i] if variants else None)
+                labels.append(r.last_label)
             disc = r.disc_of(cls, unit)
+            txn = bool(cls == "advance" or r.starts_txn(unit))
+            r.txn_open = r.txn_open or txn
             used.append([(t, d.hex()) for t, d in unit])
-            trace.append(ev("inject", ch=channel, cls=cls, length=sum(len(d) for _, d in unit), disc=disc))
+            trace.append(ev("inject", ch=channel, cls=cls, length=sum(len(d) for _, d in unit), disc=disc, txn=txn))
             outcome = None
             loop.steps = 0
             loop.budget = STEP_BUDGET
@@ -77,6 +88,11 @@ def run_sequence(channel, seq, seed, units=None, rig_factory=None, keep_units=Tr
                 loop.fatal = None
             if send_err:
                 raise send_err[0]  # the attacking side itself failed: harness problem
+            if r.use_errors and outcome is None:
+                raise r.use_errors[0]  # the harness' own "normal use" script failed
+            for t in r.use_tasks:
+                t.cancel()
+            r.use_tasks = []
             if outcome is None:
                 if cen.recursion:
                     outcome = "recursion"
@@ -96,6 +112,7 @@ def run_sequence(channel, seq, seed, units=None, rig_factory=None, keep_units=Tr
             conn = bool(r.conn_alive())
             open_ = bool(conn and r.chan_open())
             trace.append(ev("alive", conn=conn, open_=open_))
+            r.txn_open = r.txn_open and open_
             if not conn:
                 if disc != "conn":
                     why = "the connection is no longer in Device.connections"
@@ -103,6 +120,7 @@ def run_sequence(channel, seq, seed, units=None, rig_factory=None, keep_units=Tr
                 break
             if not open_:
                 ok = bool(_run(loop, r.reopen(), PROBE_STEPS, PROBE_WALL)[0])
+                r.txn_open = False
                 trace.append(ev("reopen", ok=ok))
                 if not ok:
                     why = f"the channel could not be opened again: {getattr(r, 'reopen_error', '')}"
@@ -110,9 +128,21 @@ def run_sequence(channel, seq, seed, units=None, rig_factory=None, keep_units=Tr
                     break
         if not ended and r.stale():
             ok = bool(_run(loop, r.reopen(), PROBE_STEPS, PROBE_WALL)[0])
+            r.txn_open = False
             trace.append(ev("reopen", ok=ok))
             if not ok:
                 why = f"a fresh channel could not be opened: {getattr(r, 'reopen_error', '')}"
+                ended = True
+        if not ended and r.txn_open:
+            # the peer gives up the transaction it started, the ordinary way; no verdict on this step
+            trace.append(ev("abandon"))
+            _, err = _run(loop, r.abandon(), PROBE_STEPS, PROBE_WALL)
+            r.txn_open = False
+            if err:
+                stage = "abandon"
+                trace.append(ev("probe", ch=channel))
+                trace.append(ev("probe_ok", ok=False))
+                why = f"giving up the transaction in progress did not complete: {err}"
                 ended = True
         if not ended:
             trace.append(ev("probe", ch=channel))
@@ -121,6 +151,8 @@ def run_sequence(channel, seq, seed, units=None, rig_factory=None, keep_units=Tr
                 ok, why = False, f"probe did not complete: {err}"
             else:
                 ok, why = res
+            if not ok:
+                stage = r.stage
             trace.append(ev("probe_ok", ok=bool(ok)))
     finally:
         try:
@@ -128,7 +160,10 @@ def run_sequence(channel, seq, seed, units=None, rig_factory=None, keep_units=Tr
                 vt.close_loop(loop)
         except BaseException:
             pass
-    return {"channel": channel, "seq": list(seq), "seed": seed, "trace": trace, "units": used if keep_units else None, "why": why, "first_exc": first_exc}
+    if os.environ.get("C17_DEBUG_ALARMS") and watch.fired != fired0:
+        print("ALARM", channel, seq, labels, [e.get("outcome") for e in trace if e["e"] == "done"], flush=True)
+    return {"channel": channel, "seq": list(seq), "seed": seed, "trace": trace, "units": used if keep_units else None, "why": why, "first_exc": first_exc,
+            "labels": labels, "stage": stage, "variants": list(variants) if variants else None}
 
 
 def _send(r, unit, errors):
